@@ -77,7 +77,7 @@ join_same_entries(econf_file *ef)
 	  {
 	    /* removing leading spaces */
 	    while(isspace(*post)) post++;
-	    ret = asprintf(&(ef->file_entry[i].value), "%s\n%s", pre,
+	    ret = asprintf(&(ef->file_entry[i].value), "%s\n%s", pre ? pre : "",
 			   post);
 	    if(ret<0)
 	      return ECONF_NOMEM;
@@ -91,11 +91,16 @@ join_same_entries(econf_file *ef)
 	{
 	  post = ef->file_entry[j].comment_before_key;
           pre = ef->file_entry[i].comment_before_key;
-	  int ret = asprintf(&(ef->file_entry[i].comment_before_key),
-			     "%s\n%s", pre, post);
-	  if(ret<0)
-	    return ECONF_NOMEM;
-	  free(pre);
+	  if (pre == NULL)
+	  {
+	    ef->file_entry[i].comment_before_key = strdup(post);
+	  } else {
+	    int ret = asprintf(&(ef->file_entry[i].comment_before_key),
+			       "%s\n%s", pre, post);
+	    if(ret<0)
+	      return ECONF_NOMEM;
+	    free(pre);
+	  }
 	}
 
 	if (ef->file_entry[j].value == NULL ||
@@ -154,8 +159,8 @@ store (econf_file *ef, const char *group, const char *key,
     }
 
     char *content = ef->file_entry[ef->length-1].value;
-    int ret = asprintf(&(ef->file_entry[ef->length-1].value), "%s\n%s", content,
-	     value);
+    int ret = asprintf(&(ef->file_entry[ef->length-1].value), "%s\n%s",
+		       content ? content : "", value);
     if(ret<0)
       return ECONF_NOMEM;
     free(content);
